@@ -84,6 +84,7 @@ class Loop:
     node: ast.AST
     func: Func
     cond: tuple = None
+    init: dict = field(default_factory=dict)
 
 
 @dataclass
@@ -243,6 +244,7 @@ class _Run:
         self.withstack: list = []
         self.trystack: list = []
         self.cvdepth = 0
+        self.declared_global: set = set()
 
     # ------------------------------------------------------------------ events
     def emit(self, kind, node, st, **kw) -> Event:
@@ -354,6 +356,10 @@ class _Run:
 
     def assign(self, tgt, v, st: State, s, aug=False) -> None:
         if isinstance(tgt, ast.Name):
+            if tgt.id in self.declared_global:
+                g = ('g', f'{self.func.module.name}.{tgt.id}')
+                self.emit('store', s, st, target=g, base=g, value=v, note='rebind')
+                return
             st.env[tgt.id] = v
             return
         if isinstance(tgt, (ast.Tuple, ast.List)):
@@ -375,6 +381,11 @@ class _Run:
             return
         if isinstance(tgt, ast.Attribute):
             obj = self.ev(tgt.value, st)
+            if tag(obj) == 'g':
+                # rebinding of a module-level (or class-level) name from outside
+                g = ('g', self.p._canon(f'{obj[1]}.{tgt.attr}'))
+                self.emit('aug' if aug else 'store', s, st, target=g, base=g, value=v, note='rebind')
+                return
             target = ('attr', obj, tgt.attr)
             self.emit('aug' if aug else 'store', s, st, target=target, base=obj, value=v)
             return
@@ -412,6 +423,10 @@ class _Run:
 
     def st_Global(self, s, st):
         self.emit('global', s, st, note=','.join(s.names))
+        if isinstance(s, ast.Global):
+            self.declared_global |= set(s.names)
+            for nm in s.names:
+                st.env.pop(nm, None)
         return st
 
     st_Nonlocal = st_Global
@@ -501,6 +516,7 @@ class _Run:
             if nm in st.env:
                 init[nm] = st.env[nm]
                 body_st.env[nm] = ('lphi', lid, nm)
+        loop.init = init
         self.loopstack.append(lid)
         try:
             if kind == 'for':
